@@ -112,7 +112,11 @@ def harness_for(cfg):
     top = 1 << aw
 
     def h(E):
-        b = csr.Builder(addr_width=aw, data_width=dw, granularity=g)
+        try:
+            b = csr.Builder(addr_width=aw, data_width=dw, granularity=g)
+        except (ValueError, TypeError):
+            E.prove(False, "a legal builder geometry (positive widths, granularity dividing the data width) is refused")
+            return
         other = csr.Builder(addr_width=aw, data_width=dw, granularity=g)     # an unrelated builder used in between
         regs, offs, names = [], [], []
         stack = []
